@@ -45,6 +45,9 @@ CONSTANTS Threads,   \* all threads (clients and workers)
           Mut        \* "none" or the name of a spec mutation (non-vacuity runs)
 
 VMOD == 2 ^ K
+\* the ghosts of the observation NoMissedZero are only maintained when asked for (they cost states)
+Track == Mut = "obs_missed_zero"
+
 Count(nv) == (VMOD - nv) % VMOD          \* _dg_state_value()
 
 VARIABLES st,          \* dg_state: [gen, nv, hn, hw]
@@ -73,7 +76,7 @@ vars == <<st, ntail, nhead, nnext, futexQ, pc, lv, ip, spur, outstanding, own, t
 S0 == [gen |-> 0, nv |-> 0, hn |-> 0, hw |-> 0]
 L0 == [o |-> S0, g |-> 0, kind |-> "forever", tmo |-> FALSE, rc |-> "none",
        n |-> 0, prev |-> 0, bef |-> {}, head |-> 0, tail |-> 0, dc |-> 0, nx |-> 0,
-       ohn |-> 0, ohw |-> 0, dec |-> FALSE, win |-> {}, f2 |-> {}, tok |-> 0, nul |-> FALSE]
+       ohn |-> 0, ohw |-> 0, dec |-> FALSE, win |-> {}, f2 |-> {}, nul |-> FALSE]
 
 Init == /\ st = S0 /\ ntail = 0 /\ nhead = 0 /\ nnext = [n \in NIds |-> 0]
         /\ futexQ = {} /\ pc = [t \in Threads |-> "idle"] /\ lv = [t \in Threads |-> L0]
@@ -84,33 +87,17 @@ Init == /\ st = S0 /\ ntail = 0 /\ nhead = 0 /\ nnext = [n \in NIds |-> 0]
         /\ zeroSeen = [t \in Threads |-> FALSE] /\ waitRes = [t \in Threads |-> "none"]
         /\ earlyF2 = FALSE /\ earlyOther = FALSE
 
-WaitPcs == {"w_load", "w_cas", "w_fcall", "w_kern", "w_sleep", "w_gload"}
+WaitPcs == {"w_load", "w_cas", "w_fcall", "w_sleep", "w_gload"}
 InWait(t) == pc[t] \in WaitPcs
 
+Reg(n) == IF Track THEN regd \cup {n} ELSE regd
 Go(t, l) == pc' = [pc EXCEPT ![t] = l]
 Set(t, r) == lv' = [lv EXCEPT ![t] = r]
+\* locals are dead once the call has returned (only the ghost `tmo` is read by a property)
+Clean(r) == [L0 EXCEPT !.tmo = r.tmo]
+GoSet(t, l, r) == Go(t, l) /\ Set(t, IF l = "idle" THEN Clean(r) ELSE r)
 
 (* ------------------------------- API entry ------------------------------- *)
-CallEnter(t, tk) ==
-    /\ pc[t] = "idle" /\ Go(t, "en_sub") /\ Set(t, [lv[t] EXCEPT !.tok = tk])
-    /\ UNCHANGED <<st, ntail, nhead, nnext, futexQ, spur, outstanding, own, tasks, pushed, regd, before,
-                   zeroAfter, fired, ran, zeroSeen, waitRes, earlyF2, earlyOther>>
-CallAsync(t, tk) ==
-    /\ pc[t] = "idle" /\ Go(t, "as_sub") /\ Set(t, [lv[t] EXCEPT !.tok = tk])
-    /\ UNCHANGED <<st, ntail, nhead, nnext, futexQ, spur, outstanding, own, tasks, pushed, regd, before,
-                   zeroAfter, fired, ran, zeroSeen, waitRes, earlyF2, earlyOther>>
-\* the client leaves work it entered itself
-CallLeave(t, tk) ==
-    /\ pc[t] = "idle" /\ tk \in own[t] /\ Go(t, "lv_add") /\ Set(t, [lv[t] EXCEPT !.tok = tk])
-    /\ own' = [own EXCEPT ![t] = @ \ {tk}]
-    /\ UNCHANGED <<st, ntail, nhead, nnext, futexQ, spur, outstanding, tasks, pushed, regd, before,
-                   zeroAfter, fired, ran, zeroSeen, waitRes, earlyF2, earlyOther>>
-\* the block of a dispatch_group_async finished on thread t: the library calls dispatch_group_leave
-AsyncEnd(t, tk) ==
-    /\ pc[t] = "idle" /\ tk \in tasks /\ Go(t, "lv_add") /\ Set(t, [lv[t] EXCEPT !.tok = tk])
-    /\ tasks' = tasks \ {tk}
-    /\ UNCHANGED <<st, ntail, nhead, nnext, futexQ, spur, outstanding, own, pushed, regd, before,
-                   zeroAfter, fired, ran, zeroSeen, waitRes, earlyF2, earlyOther>>
 \* the snapshot "work entered before the notify call" is taken here
 CallNotify(t) ==
     /\ pc[t] = "idle" /\ Go(t, "nf_xchg") /\ Set(t, [lv[t] EXCEPT !.bef = outstanding])
@@ -126,15 +113,16 @@ CallWait(t, k) ==
 
 (* --------------------------- dispatch_group_enter --------------------------- *)
 \* uint32_t old_bits = os_atomic_sub_orig2o(dg, dg_bits, INTERVAL, acquire);  (32 bits: gen untouched)
-\* old_value == VALUE_MAX is a client crash ("too many nested calls"): not a legal history
-EnterSub(t) ==
-    /\ pc[t] \in {"en_sub", "as_sub"} /\ Count(st.nv) < VMOD - 1
+\* old_value == VALUE_MAX is a client crash ("too many nested calls"): not a legal history.
+\* The call has this single step (call, access and return are one action; `tk` names the work entered,
+\* `async` says that it is dispatch_group_async work, which a worker thread will leave).
+Enter(t, tk, async) ==
+    /\ pc[t] = "idle" /\ Count(st.nv) < VMOD - 1
     /\ st' = [st EXCEPT !.nv = (st.nv + VMOD - 1) % VMOD]
-    /\ outstanding' = outstanding \cup {lv[t].tok}
-    /\ IF pc[t] = "en_sub" THEN own' = [own EXCEPT ![t] = @ \cup {lv[t].tok}] /\ tasks' = tasks
-                           ELSE tasks' = tasks \cup {lv[t].tok} /\ own' = own
-    /\ Go(t, "idle")
-    /\ UNCHANGED <<ntail, nhead, nnext, futexQ, lv, ip, spur, pushed, regd, before, zeroAfter, fired, ran,
+    /\ outstanding' = outstanding \cup {tk}
+    /\ IF async THEN tasks' = tasks \cup {tk} /\ own' = own
+                ELSE own' = [own EXCEPT ![t] = @ \cup {tk}] /\ tasks' = tasks
+    /\ UNCHANGED <<ntail, nhead, nnext, futexQ, pc, lv, spur, pushed, regd, before, zeroAfter, fired, ran,
                    zeroSeen, waitRes, earlyF2, earlyOther>>
 
 (* ---------------------------- _dispatch_group_wake ---------------------------- *)
@@ -193,17 +181,17 @@ WakeSubmit(t) ==
        IN /\ fired' = [fired EXCEPT ![n] = @ + 1]
           /\ earlyF2' = (earlyF2 \/ (isEarly /\ n \in lv[t].f2))
           /\ earlyOther' = (earlyOther \/ (isEarly /\ n \notin lv[t].f2))
-          /\ Set(t, [lv[t] EXCEPT !.dc = nx, !.nx = 0])
-          /\ Go(t, IF nx = 0 THEN (IF lv[t].ohw = 1 THEN "wk_futex" ELSE "idle")
-                   ELSE IF nx # lv[t].tail THEN "wk_next" ELSE "wk_submit")
+          /\ GoSet(t, IF nx = 0 THEN (IF lv[t].ohw = 1 THEN "wk_futex" ELSE "idle")
+                      ELSE IF nx # lv[t].tail THEN "wk_next" ELSE "wk_submit",
+                   [lv[t] EXCEPT !.dc = nx, !.nx = 0])
     /\ UNCHANGED <<st, ntail, nhead, nnext, futexQ, ip, spur, outstanding, own, tasks, pushed, regd, before,
                    zeroAfter, ran, zeroSeen, waitRes>>
 \* _dispatch_wake_by_address(&dg->dg_gen): FUTEX_WAKE all
 WakeFutex(t) ==
     /\ pc[t] = "wk_futex"
     /\ futexQ' = IF Mut = "leave_nowake" THEN futexQ ELSE {}
-    /\ Go(t, "idle")
-    /\ UNCHANGED <<st, ntail, nhead, nnext, lv, ip, spur, outstanding, own, tasks, pushed, regd, before,
+    /\ GoSet(t, "idle", lv[t])
+    /\ UNCHANGED <<st, ntail, nhead, nnext, ip, spur, outstanding, own, tasks, pushed, regd, before,
                    zeroAfter, fired, ran, zeroSeen, waitRes, earlyF2, earlyOther>>
 
 (* --------------------------- dispatch_group_leave --------------------------- *)
@@ -212,36 +200,40 @@ WakeFutex(t) ==
 LeaveNew(o) == IF o.nv = 0 THEN [o EXCEPT !.hn = 0, !.hw = 0] ELSE [o EXCEPT !.hn = 0]
 \* old_state = os_atomic_add_orig2o(dg, dg_state, INTERVAL, release); carry into gen when nv = VMOD-1.
 \* An unbalanced leave (old_value == 0) is a client crash: not a legal history.
-LeaveAdd(t) ==
-    /\ pc[t] = "lv_add" /\ Count(st.nv) > 0
+\* `tk` is the work being left: the caller's own (dispatch_group_leave) or dispatch_group_async work whose
+\* block just finished on this thread (_dispatch_continuation_with_group_invoke)
+Leave(t, tk) ==
+    /\ pc[t] = "idle" /\ Count(st.nv) > 0
+    /\ \/ tk \in own[t] /\ own' = [own EXCEPT ![t] = @ \ {tk}] /\ tasks' = tasks
+       \/ tk \in tasks /\ tasks' = tasks \ {tk} /\ own' = own
     /\ LET one == IF Mut = "leave_anyvalue" THEN TRUE ELSE (st.nv = VMOD - 1)   \* old_value == VALUE_1
            ns == [st EXCEPT !.nv = (st.nv + 1) % VMOD, !.gen = IF st.nv = VMOD - 1 THEN st.gen + 1 ELSE st.gen]
            zero == (ns.nv = 0)
        IN /\ st' = ns
-          /\ outstanding' = outstanding \ {lv[t].tok}
+          /\ outstanding' = outstanding \ {tk}
           /\ zeroSeen' = [u \in Threads |-> zeroSeen[u] \/ (zero /\ InWait(u))]
-          /\ zeroAfter' = [n \in NIds |-> zeroAfter[n] \/ (zero /\ n \in regd /\ fired[n] = 0)]
+          /\ zeroAfter' = [n \in NIds |-> zeroAfter[n] \/ (Track /\ zero /\ n \in regd /\ fired[n] = 0)]
           /\ IF one
                THEN \* old_state += INTERVAL; this is a ZERO DECISION (true zero iff `zero`)
                     LET r == [lv[t] EXCEPT !.o = ns, !.dec = zero, !.win = {}] IN
                     IF LeaveNew(ns) = ns
-                      THEN Set(t, WakeLv(r, ns)) /\ Go(t, WakePc(ns))       \* break: nothing to clear
+                      THEN GoSet(t, WakePc(ns), WakeLv(r, ns))       \* break: nothing to clear
                       ELSE Set(t, r) /\ Go(t, "lv_cas")
-               ELSE Go(t, "idle") /\ lv' = lv
-    /\ UNCHANGED <<ntail, nhead, nnext, futexQ, ip, spur, own, tasks, pushed, regd, before, fired, ran,
+               ELSE UNCHANGED <<pc, lv>>
+    /\ UNCHANGED <<ntail, nhead, nnext, futexQ, spur, pushed, regd, before, fired, ran,
                    waitRes, earlyF2, earlyOther>>
 \* os_atomic_cmpxchgv2o(dg, dg_state, old_state, new_state, &old_state, relaxed)
 LeaveCasOk(t) ==
     /\ pc[t] = "lv_cas" /\ st = lv[t].o
     /\ st' = LeaveNew(lv[t].o)
-    /\ Set(t, WakeLv(lv[t], lv[t].o)) /\ Go(t, WakePc(lv[t].o))   \* wake gets the value BEFORE the CAS
+    /\ GoSet(t, WakePc(lv[t].o), WakeLv(lv[t], lv[t].o))   \* wake gets the value BEFORE the CAS
     /\ UNCHANGED <<ntail, nhead, nnext, futexQ, ip, spur, outstanding, own, tasks, pushed, regd, before,
                    zeroAfter, fired, ran, zeroSeen, waitRes, earlyF2, earlyOther>>
 LeaveCasFail(t) ==
     /\ pc[t] = "lv_cas" /\ st # lv[t].o
     /\ LET r == [lv[t] EXCEPT !.o = st] IN              \* old_state reloaded by the failed CAS
        IF LeaveNew(st) = st
-         THEN Set(t, WakeLv(r, st)) /\ Go(t, WakePc(st))
+         THEN GoSet(t, WakePc(st), WakeLv(r, st))
          ELSE Set(t, r) /\ Go(t, "lv_cas")
     /\ UNCHANGED <<st, ntail, nhead, nnext, futexQ, ip, spur, outstanding, own, tasks, pushed, regd, before,
                    zeroAfter, fired, ran, zeroSeen, waitRes, earlyF2, earlyOther>>
@@ -265,10 +257,11 @@ NotifyXchg(t, n) ==
 NotifyLink(t) ==
     /\ pc[t] = "nf_link"
     /\ IF lv[t].prev = 0
-         THEN nhead' = lv[t].n /\ nnext' = nnext /\ Go(t, "nf_load") /\ regd' = regd
-         ELSE /\ nnext' = [nnext EXCEPT ![lv[t].prev] = lv[t].n] /\ nhead' = nhead /\ Go(t, "idle")
-              /\ regd' = regd \cup {lv[t].n}
-    /\ UNCHANGED <<st, ntail, futexQ, lv, ip, spur, outstanding, own, tasks, pushed, before,
+         THEN nhead' = lv[t].n /\ nnext' = nnext /\ regd' = regd
+         ELSE /\ nnext' = [nnext EXCEPT ![lv[t].prev] = lv[t].n] /\ nhead' = nhead
+              /\ regd' = Reg(lv[t].n)
+    /\ GoSet(t, IF lv[t].prev = 0 THEN "nf_load" ELSE "idle", lv[t])
+    /\ UNCHANGED <<st, ntail, futexQ, ip, spur, outstanding, own, tasks, pushed, before,
                    zeroAfter, fired, ran, zeroSeen, waitRes, earlyF2, earlyOther>>
 \* body of the rmw loop on the value o just read from dg_state
 \* if ((uint32_t)old_state == 0) give up and _dispatch_group_wake(dg, old_state | HAS_NOTIFS, false)
@@ -277,9 +270,9 @@ NotifyDecide(t, o) ==
     IF NotifyFiresNow(o)
       THEN \* ZERO DECISION (a true zero: the count read is 0)
            /\ Set(t, WakeLv([lv[t] EXCEPT !.o = o, !.dec = TRUE, !.win = {}], [o EXCEPT !.hn = 1]))
-           /\ Go(t, "wk_head") /\ regd' = regd \cup {lv[t].n}
+           /\ Go(t, "wk_head") /\ regd' = Reg(lv[t].n)
       ELSE IF Mut = "notify_nobit"
-             THEN Set(t, [lv[t] EXCEPT !.o = o]) /\ Go(t, "idle") /\ regd' = regd \cup {lv[t].n}
+             THEN GoSet(t, "idle", lv[t]) /\ regd' = Reg(lv[t].n)
              ELSE Set(t, [lv[t] EXCEPT !.o = o]) /\ Go(t, "nf_cas") /\ regd' = regd
 NotifyLoad(t) ==
     /\ pc[t] = "nf_load" /\ NotifyDecide(t, st)
@@ -287,8 +280,8 @@ NotifyLoad(t) ==
                    zeroAfter, fired, ran, zeroSeen, waitRes, earlyF2, earlyOther>>
 NotifyCasOk(t) ==
     /\ pc[t] = "nf_cas" /\ st = lv[t].o
-    /\ st' = [st EXCEPT !.hn = 1] /\ Go(t, "idle") /\ regd' = regd \cup {lv[t].n}
-    /\ UNCHANGED <<ntail, nhead, nnext, futexQ, lv, ip, spur, outstanding, own, tasks, pushed, before,
+    /\ st' = [st EXCEPT !.hn = 1] /\ GoSet(t, "idle", lv[t]) /\ regd' = Reg(lv[t].n)
+    /\ UNCHANGED <<ntail, nhead, nnext, futexQ, ip, spur, outstanding, own, tasks, pushed, before,
                    zeroAfter, fired, ran, zeroSeen, waitRes, earlyF2, earlyOther>>
 NotifyCasFail(t) ==
     /\ pc[t] = "nf_cas" /\ st # lv[t].o /\ NotifyDecide(t, st)
@@ -296,12 +289,12 @@ NotifyCasFail(t) ==
                    zeroAfter, fired, ran, zeroSeen, waitRes, earlyF2, earlyOther>>
 
 (* ----------------------------- dispatch_group_wait ----------------------------- *)
-RetWait(t, res) == /\ Go(t, "idle") /\ waitRes' = [waitRes EXCEPT ![t] = res]
+RetWait(t, res, r) == /\ GoSet(t, "idle", r) /\ waitRes' = [waitRes EXCEPT ![t] = res]
 \* body of the rmw loop on the value o just read
 WaitDecide(t, o) ==
-    IF o.nv = 0 THEN RetWait(t, "ok") /\ Set(t, [lv[t] EXCEPT !.o = o])      \* give up with acquire fence: return 0
+    IF o.nv = 0 THEN RetWait(t, "ok", lv[t])                                  \* give up with acquire fence: return 0
     ELSE IF lv[t].kind = "now"                                                \* timeout == 0: return TIMEOUT
-      THEN RetWait(t, "timeout") /\ Set(t, [lv[t] EXCEPT !.o = o, !.tmo = TRUE])
+      THEN RetWait(t, "timeout", [lv[t] EXCEPT !.tmo = TRUE])
     ELSE IF o.hw = 1                                                          \* bit already set: give up (break)
       THEN Go(t, "w_fcall") /\ Set(t, [lv[t] EXCEPT !.o = o, !.g = o.gen]) /\ waitRes' = waitRes
     ELSE Go(t, "w_cas") /\ Set(t, [lv[t] EXCEPT !.o = o]) /\ waitRes' = waitRes
@@ -326,20 +319,15 @@ WaitElapsed(t) ==
     /\ Set(t, [lv[t] EXCEPT !.tmo = TRUE, !.rc = "timedout"]) /\ Go(t, "w_gload")
     /\ UNCHANGED <<st, ntail, nhead, nnext, futexQ, ip, spur, outstanding, own, tasks, pushed, regd, before,
                    zeroAfter, fired, ran, zeroSeen, waitRes, earlyF2, earlyOther>>
-\* ... otherwise syscall(SYS_futex, &dg_gen, FUTEX_WAIT, gen, ts)
-FutexCall(t) ==
-    /\ pc[t] = "w_fcall" /\ Go(t, "w_kern")
-    /\ UNCHANGED <<st, ntail, nhead, nnext, futexQ, lv, ip, spur, outstanding, own, tasks, pushed, regd, before,
-                   zeroAfter, fired, ran, zeroSeen, waitRes, earlyF2, earlyOther>>
-\* kernel: *uaddr == val -> sleep
+\* ... otherwise syscall(SYS_futex, &dg_gen, FUTEX_WAIT, gen, ts); kernel: *uaddr == val -> sleep
 FutexSleep(t) ==
-    /\ pc[t] = "w_kern" /\ st.gen = lv[t].g
+    /\ pc[t] = "w_fcall" /\ st.gen = lv[t].g
     /\ futexQ' = futexQ \cup {t} /\ Go(t, "w_sleep")
     /\ UNCHANGED <<st, ntail, nhead, nnext, lv, ip, spur, outstanding, own, tasks, pushed, regd, before,
                    zeroAfter, fired, ran, zeroSeen, waitRes, earlyF2, earlyOther>>
 \* kernel: *uaddr != val -> EWOULDBLOCK
 FutexAgain(t) ==
-    /\ pc[t] = "w_kern" /\ st.gen # lv[t].g
+    /\ pc[t] = "w_fcall" /\ st.gen # lv[t].g
     /\ Set(t, [lv[t] EXCEPT !.rc = "again"]) /\ Go(t, "w_gload")
     /\ UNCHANGED <<st, ntail, nhead, nnext, futexQ, ip, spur, outstanding, own, tasks, pushed, regd, before,
                    zeroAfter, fired, ran, zeroSeen, waitRes, earlyF2, earlyOther>>
@@ -368,10 +356,10 @@ WaitGenLoad(t) ==
     /\ pc[t] = "w_gload"
     /\ LET changed == IF Mut = "wait_nogen" THEN (st.gen # lv[t].g \/ lv[t].rc = "ok")
                                             ELSE st.gen # lv[t].g
-       IN IF changed THEN RetWait(t, "ok")
-          ELSE IF lv[t].rc = "timedout" THEN RetWait(t, "timeout")
-          ELSE Go(t, "w_fcall") /\ waitRes' = waitRes
-    /\ UNCHANGED <<st, ntail, nhead, nnext, futexQ, lv, ip, spur, outstanding, own, tasks, pushed, regd, before,
+       IN IF changed THEN RetWait(t, "ok", lv[t])
+          ELSE IF lv[t].rc = "timedout" THEN RetWait(t, "timeout", lv[t])
+          ELSE Go(t, "w_fcall") /\ waitRes' = waitRes /\ lv' = lv
+    /\ UNCHANGED <<st, ntail, nhead, nnext, futexQ, ip, spur, outstanding, own, tasks, pushed, regd, before,
                    zeroAfter, fired, ran, zeroSeen, earlyF2, earlyOther>>
 
 \* the notification block runs on its queue (environment; used by trace validation only)
@@ -383,12 +371,12 @@ NotifyRan(n) ==
 
 \* model checking: notifier identities are allocated in push order
 MinFree == CHOOSE m \in NIds \ pushed : \A k \in NIds \ pushed : m <= k
-Lib(t) == \/ EnterSub(t) \/ LeaveAdd(t) \/ LeaveCasOk(t) \/ LeaveCasFail(t)
+Lib(t) == \/ LeaveCasOk(t) \/ LeaveCasFail(t)
           \/ WakeGetHead(t) \/ WakeHeadClear(t) \/ WakeTailXchg(t) \/ WakeGetNext(t) \/ WakeSubmit(t)
           \/ WakeFutex(t)
           \/ (NIds \ pushed # {} /\ NotifyXchg(t, MinFree))
           \/ NotifyLink(t) \/ NotifyLoad(t) \/ NotifyCasOk(t) \/ NotifyCasFail(t)
-          \/ WaitLoad(t) \/ WaitCasOk(t) \/ WaitCasFail(t) \/ WaitElapsed(t) \/ FutexCall(t)
+          \/ WaitLoad(t) \/ WaitCasOk(t) \/ WaitCasFail(t) \/ WaitElapsed(t)
           \/ FutexSleep(t) \/ FutexAgain(t) \/ FutexWoken(t) \/ FutexSpurious(t) \/ FutexTimeout(t)
           \/ WaitGenLoad(t)
 
@@ -398,9 +386,9 @@ Advance(t) == ip' = [ip EXCEPT ![t] = @ + 1]
 Call(t) ==
     /\ pc[t] = "idle" /\ ip[t] <= Len(Prog[t])
     /\ \E op \in Prog[t][ip[t]] :
-         CASE op = "enter"  -> CallEnter(t, 100 * t + ip[t])
-           [] op = "async"  -> Workers # {} /\ CallAsync(t, 100 * t + ip[t])
-           [] op = "leave"  -> \E tk \in own[t] : CallLeave(t, tk)
+         CASE op = "enter"  -> Enter(t, 100 * t + ip[t], FALSE)
+           [] op = "async"  -> Workers # {} /\ Enter(t, 100 * t + ip[t], TRUE)
+           [] op = "leave"  -> \E tk \in own[t] : Leave(t, tk)
            [] op = "notify" -> NIds \ pushed # {} /\ Cardinality({u \in Threads : pc[u] = "nf_xchg"}) < Cardinality(NIds \ pushed)
                                /\ CallNotify(t)
            [] op = "wait"   -> CallWait(t, "forever")
@@ -410,7 +398,7 @@ Call(t) ==
                                            pushed, regd, before, zeroAfter, fired, ran, zeroSeen, waitRes, earlyF2, earlyOther>>
     /\ Advance(t)
 \* a worker finishes the block of some dispatch_group_async
-Work(t) == t \in Workers /\ \E tk \in tasks : AsyncEnd(t, tk) /\ UNCHANGED ip
+Work(t) == t \in Workers /\ \E tk \in tasks : Leave(t, tk) /\ UNCHANGED ip
 
 Step(t) == Call(t) \/ Work(t) \/ (Lib(t) /\ UNCHANGED ip)
 Next == \E t \in Threads : Step(t)
@@ -455,7 +443,7 @@ Reusable == (Quiet /\ Count(st.nv) = 0) => (st.nv = 0 /\ st.hn = 0 /\ st.hw = 0 
 
 \* liveness under fairness
 CallsTerminate == \A t \in Threads : (pc[t] # "idle" /\ ~InWait(t)) ~> (pc[t] = "idle")
-InSlow(t) == pc[t] \in {"w_fcall", "w_kern", "w_sleep", "w_gload"}
+InSlow(t) == pc[t] \in {"w_fcall", "w_sleep", "w_gload"}
 WaitersReleased == \A t \in Threads :
     /\ (pc[t] \in {"w_load", "w_cas"}) ~> (pc[t] \notin {"w_load", "w_cas"})
     /\ (InSlow(t) /\ (st.gen # lv[t].g \/ lv[t].kind = "timed")) ~> (pc[t] = "idle")
